@@ -1292,6 +1292,7 @@ func run(c *fw.Ctx) {
 	r.dirtyDestination(keys, false)
 	// entry-point dimension: the gateway write handler (last: it installs a latest state)
 	r.entryPoints(keys)
+	r.peerBatch(keys)
 	c.Note("dirty_destination_note", "observation, not flagged (no admission path decodes into a reused object; upstream go-ethereum behaves the same): t := new(eth_tx.Transaction); rlp.DecodeBytes(encA, t); t.Hash() or eth_tx.Sender(signer, t); rlp.DecodeBytes(encB, t) => t.Hash() / Sender still answer for A (DecodeRLP does not reset the hash/from caches) while the fields are B's. Sign.GetR/GetS return big.Int values sharing words with the Sign (counter sign_getr_result_shares_words_with_sign).")
 	c.NontrivialN(r.nontriv)
 	c.Count("equivalent_reencodings_accepted(observation)", r.equivOK)
